@@ -651,3 +651,92 @@ pub fn gen_otlp(rng: &mut Rng, tier: Tier, n: usize) -> Vec<String> {
         Some(format!("(otlp {} {})", signal, e.to_sexp()?))
     })
 }
+
+// ------------------------------------------------------------------------------------------ c13_term
+
+/// values a template hole / the well-known keys of the terminal writer are given in the term stream: simple
+/// captures only (a tree's token rendering is sval_fmt's business and not modelled)
+fn term_simple(rng: &mut Rng) -> Val {
+    loop {
+        let v = any_val(rng, AVOID_FILE, 0);
+        if !matches!(v, Val::Sv(_)) {
+            return v;
+        }
+    }
+}
+
+fn term_scalar_elem(rng: &mut Rng) -> Tree {
+    match rng.below(9) {
+        0 | 1 | 2 => Tree::Int(Int::signed(Ty::I32, rng.range(0, 40) as i128 - 20)),
+        3 => Tree::Int(Int::signed(Ty::I64, *rng.pick(&[i32::MIN as i128, i32::MAX as i128, i64::MAX as i128, i64::MIN as i128, 1 << 40]))),
+        4 | 5 => Tree::F64(float(rng, AVOID_FILE)),
+        6 => Tree::F32(float32(rng, AVOID_FILE)),
+        7 => rng.pick(&[Tree::Null, Tree::None_, Tree::Bool(true), Tree::Text("x".into())]).clone(),
+        _ => Tree::F64(*rng.pick(&[1.0, 2.0, 3.0, 1e300, -1e300, f64::MAX, f64::MIN, 0.3, 0.1])),
+    }
+}
+
+fn term_metric_value(rng: &mut Rng) -> Val {
+    match rng.below(8) {
+        0 => term_simple(rng),
+        1 | 2 => Val::ArrI64((0..rng.range(0, 6)).map(|_| rng.range(0, 50) as i64 - 10).collect()),
+        3 | 4 => Val::ArrF64((0..rng.range(0, 6)).map(|_| float(rng, AVOID_FILE)).collect()),
+        _ => {
+            let n = match rng.below(4) {
+                0 => 0,
+                1 => 1,
+                _ => rng.range(2, 12) as usize,
+            };
+            // often a constant or near-constant series (max - min = 0 or tiny)
+            if rng.chance(1, 5) {
+                let x = term_scalar_elem(rng);
+                Val::Sv(Tree::Seq((0..n).map(|_| x.clone()).collect()))
+            } else {
+                Val::Sv(Tree::Seq((0..n).map(|_| term_scalar_elem(rng)).collect()))
+            }
+        }
+    }
+}
+
+pub fn gen_term(rng: &mut Rng, tier: Tier, n: usize) -> Vec<String> {
+    let mut out = Vec::new();
+    while out.len() < n.max(1) {
+        let mut e = event(rng, AVOID_FILE, tier);
+        // holes and the keys the writer reads get simple values (first occurrence wins)
+        let holes: Vec<String> = e.tpl.iter().filter_map(|p| if let PartD::Hole(h) = p { Some(h.clone()) } else { None }).collect();
+        let read = ["span_id", "trace_id", "lvl", "evt_kind", "err", "metric_value"];
+        let mut seen: Vec<String> = Vec::new();
+        for (k, v) in e.props.iter_mut() {
+            if seen.contains(k) {
+                continue;
+            }
+            seen.push(k.clone());
+            if k == "metric_value" {
+                // a sequence in a hole is rendered through sval_fmt tokens (not modelled): simple values only there
+                *v = if holes.contains(k) { term_simple(rng) } else { term_metric_value(rng) };
+            } else if (holes.contains(k) || read.contains(&k.as_str())) && matches!(v, Val::Sv(_)) {
+                *v = term_simple(rng);
+            }
+        }
+        if rng.chance(1, 3) && !e.props.iter().any(|(k, _)| k == "metric_value") && !holes.iter().any(|h| h == "metric_value") {
+            e.props.push(("metric_value".into(), term_metric_value(rng)));
+        }
+        if rng.chance(1, 4) {
+            let at = rng.usize(e.props.len() + 1);
+            let v = well_known_val(rng, "span_id", AVOID_FILE, 0);
+            if !matches!(v, Val::Sv(_)) && !e.props.iter().any(|(k, _)| k == "span_id") {
+                e.props.insert(at, ("span_id".into(), v));
+                e.unique = false;
+            }
+        }
+        let mut ks: Vec<&str> = e.props.iter().map(|(k, _)| k.as_str()).collect();
+        ks.sort();
+        if ks.windows(2).any(|w| w[0] == w[1]) {
+            e.unique = false;
+        }
+        if let Some(s) = e.to_sexp() {
+            out.push(format!("(term {})", s));
+        }
+    }
+    out
+}
